@@ -133,7 +133,9 @@ class MixedLogReader(object):
         self.filter_in_place(self.message_types)
         self.filter_in_place(self.time_range)
 
-        self.index = self._original_index[self.message_types][self.time_range]
+        # Apply the time range to the complete index first: whether a message without P1 time falls inside the time range
+        # is determined by its position among _all_ P1-timestamped messages in the log, not only the requested types.
+        self.index = self._original_index[self.time_range][self.message_types]
         self.filtered_message_types = len(np.unique(self._original_index.type)) != \
                                         len(np.unique(self.index.type))
 
